@@ -71,8 +71,11 @@ def schema(draw, signing_bias=False, max_rules=7, mode='base'):
                     items.append(dict(items[-1]))      # the same rule referenced twice in one name
             elif kind == 'pat':
                 if named_pool is MANY_NAMED:
-                    # walk through the pool so that most names occur somewhere
-                    items.append({'pat': named_pool[(len(rules) * 3 + len(items) + draw(st.integers(0, 2))) % len(named_pool)]})
+                    # walk through the pool so that most names occur somewhere, but also mix early and late names in one rule
+                    if draw(st.booleans()):
+                        items.append({'pat': named_pool[(len(rules) * 3 + len(items) + draw(st.integers(0, 2))) % len(named_pool)]})
+                    else:
+                        items.append({'pat': draw(st.sampled_from(named_pool))})
                 else:
                     items.append({'pat': draw(st.sampled_from(named_pool))})
             elif kind == 'tmp':
@@ -102,7 +105,7 @@ def schema(draw, signing_bias=False, max_rules=7, mode='base'):
             defined.append(rid)
             continue
         if named or temps:
-            for _ in range(draw(st.integers(0, 2))):
+            for _ in range(draw(st.integers(0, 2)) if mode != 'many' else draw(st.integers(1, 2))):
                 cs = []
                 for _ in range(draw(st.integers(1, 2))):
                     p = draw(st.sampled_from(named + temps))
@@ -132,6 +135,33 @@ def schema(draw, signing_bias=False, max_rules=7, mode='base'):
         cands = [d for d in dict.fromkeys(defined) if ids.index(d) > r['_idx']]
         if cands and draw(st.integers(0, 2 if not signing_bias else 9)) > 0:
             r['sign'] = draw(st.lists(st.sampled_from(cands), min_size=1, max_size=2, unique=True))
+    if mode == 'many':
+        # Pattern numbers are handed out in processing order (rules without references: reverse alphabetical by id, items
+        # left to right).  Make sure that some rule holds two patterns whose decimal numbers are prefixes of each other
+        # (k and 1k), the later one constrained - a shape that needs >= 10 patterns and that free generation rarely builds.
+        order = sorted(range(len(rules)), key=lambda i: rules[i]['id'], reverse=True)
+        number = {}
+        for i in order:
+            for it in rules[i]['name']:
+                if 'pat' in it and not it['pat'].startswith('_') and it['pat'] not in number:
+                    number[it['pat']] = len(number) + 1
+        by_num = {v: k for k, v in number.items()}
+        highs = [n for n in by_num if n >= 10]
+        if highs:
+            hi = draw(st.sampled_from(highs))
+            lo = by_num[int(str(hi)[0])]
+            cands = [r_ for r_ in rules if any(it.get('pat') == by_num[hi] for it in r_['name']) and not r_['id'].startswith('#_')]
+            signers = {k_ for r_ in rules for k_ in r_['sign']}
+            involved = [r_ for r_ in cands if r_['sign'] or r_['id'] in signers]
+            if involved and signing_bias:
+                cands = involved
+            if cands:
+                tgt = draw(st.sampled_from(cands))
+                if not any(it.get('pat') == lo for it in tgt['name']):
+                    tgt['name'].insert(draw(st.integers(0, len(tgt['name']))), {'pat': lo})
+                tgt['cons'] = (tgt['cons'] or [[]])
+                tgt['cons'][0] = [t for t in tgt['cons'][0] if t['pat'] != by_num[hi]] + \
+                    [{'pat': by_num[hi], 'opts': [{'lit': draw(st.sampled_from(WORDS))}]}]
     for r in rules:
         del r['_idx']
     return {'rules': rules}
